@@ -31,6 +31,11 @@ CSE_MODELS = [
 
 
 EXTRA_MODELS = [
+    # conditions that sympy.simplify used to SOLVE when the Conditional is nested / a function argument (fixed 75f2433):
+    # periodic condition (first period only), closed bound printed open (other branch exactly on x = +-2)
+    "parameters(a=1.0, b=2.0)\nstates(x=1.0, y=2.0)\nstim = Conditional(Ge(y, 1), a, Conditional(Gt(sin(t), 0.5), b, 0))\n"
+    "win = Conditional(Ge(t, 100), 0, Conditional(Lt(cos(x), 1.0), x + y, y))\ndx_dt = stim - x\ndy_dt = win - y\n",
+    "states(x=1.0, y=2.0)\nw = sin(Conditional(Ge(x**-2, 0.25), abs(y), 0*x))\nv = Conditional(Gt(y, 0), 1, Conditional(Le(x**2, 4), x, y))\ndx_dt = w - x\ndy_dt = v - y\n",
     # an integer-valued quantity (sum of comparisons) referred to by name as the base of a negative integer power
     "parameters(a=0.5)\nstates(x=1.0, m=2.0)\nk = 1 + Gt(m, 1.0)\nn2 = Conditional(Gt(x, a), 2, 4)\ndx_dt = k**-1 - x\ndm_dt = a*n2**-2 - m*k**(-3)\n",
 ]
@@ -41,9 +46,6 @@ KNOWN_MODELS = {
     "abs-exp-sqrt": "parameters(g=6.0)\nstates(z=0.5)\nalpha_m = Abs(exp(g**0.5))\ndz_dt = alpha_m - z\n",
     # a constant intermediate that is zero is a Python number: dividing by it in a branch that is never taken raises
     # ZeroDivisionError (numpy.where evaluates both branches; numpy scalars would give inf and be discarded)
-    # sympy.simplify (called when a Conditional is printed) solves `x**-2 >= 0.25` for x when the Conditional sits inside a
-    # trigonometric function and returns open intervals: the printed condition is strict, wrong exactly on x = +-2
-    "trig-of-conditional-boundary": "states(x=1.0, y=2.0)\nw = sin(Conditional(Ge(x**-2, 0.25), abs(y), 0*x))\ndx_dt = w - x\ndy_dt = -y\n",
     "const-zero-divisor": "parameters(g=2.0)\nstates(u=0.01)\nq_ = 0\ntmp = Conditional(Gt(q_, 0.1), 0.25/q_, g)\ndu_dt = -tmp*u\n",
 }
 
